@@ -18,7 +18,7 @@ TEXT = {
  'C12': 'Accessors, iterators and Drop against the work-space view, for all indexes.',
  'C13': 'Additivity and zero proved by induction over layers and chunks on top of encode == enc_*_ref; scalar multiples bounded (native, independent field arithmetic).',
  'C14': 'target_feature entry points require cpu_has(f); DefaultEngine::new / eval_poly proved to call them only under the detection result and to pick the best reported ISA.',
- 'C15': 'Primitives proved equal to their reference networks (butterflies, WHT, formal derivative, mod-65535 arithmetic) over a field defined from 0x1002D and the Cantor basis; tables assumed and recomputed natively; closed forms (M1, M4) bounded.',
+ 'C15': 'Primitives proved equal to their reference networks (butterflies, WHT, formal derivative, mod-65535 arithmetic) over a field defined from 0x1002D and the Cantor basis; exp/log, mul16, mul128 and log_walsh initialisers proved equal to their definitions (x primitive, pigeonhole, Cantor inverse mechanised); skew assumed + exhaustive native check; closed forms (M1, M4) bounded.',
  'C17': 'Allocation is not observable by the verifiers: proxy (work buffer identity, proved) plus a counting allocator natively (bounded).',
 }
 checks = []
